@@ -47,15 +47,23 @@ def read_case(n, desc, pre=0, via="offset", rng=None):
         return Case([{"op": "archive.read", "case": n, "off": off, "desc": public_desc(desc), "_dat": dat.hex()}],
                     desc={"kind": desc["kind"], "modes": desc.get("_modes"), "offset": off})
     # through GameData::extract: C01's resolution is composed in
-    ex, cat, chunk, datid = rng.choice([0, 1, 5]), rng.choice([2, 4, 10]), rng.choice([0, 1, 9]), rng.choice([0, 1, 7])
+    ex, cat, chunk, datid = rng.choice([0, 1, 5]), rng.choice([2, 4, 10]), rng.choice([0, 1, 9, 10, 12, 99]), rng.choice([0, 1, 7])
     inst = Installation([0, ex], 0)
     if pre:
         inst.place(ex, cat, chunk, datid, {"kind": "std", "blocks": [[[7, 100 * pre]]], "_modes": ["raw"]})
     off = inst.place(ex, cat, chunk, datid, desc)
     path = "%s/%sdir/file%d.bin" % (sqpack.CATEGORY_NAMES[cat], ("ex%d/" % ex) if ex else "", n)
-    inst.add_entry(ex, cat, chunk, rng.choice([1, 2]), list(path.encode()), datid, off)
-    return Case([inst.open_line(1, n),
+    kind = rng.choice([1, 2])
+    inst.add_entry(ex, cat, chunk, kind, list(path.encode()), datid, off)
+    # a neighbour of the same category and chunk in ANOTHER data file, extracted first through the same handle
+    other_dat = (datid + rng.choice([1, 2, 3])) % 8
+    other_path = "%s/%sdir/other%d.bin" % (sqpack.CATEGORY_NAMES[cat], ("ex%d/" % ex) if ex else "", n)
+    ooff = inst.place(ex, cat, chunk, other_dat, {"kind": "std", "blocks": [[[9, 77]]], "_modes": ["raw"]})
+    inst.add_entry(ex, cat, chunk, kind, list(other_path.encode()), other_dat, ooff)
+    first = [{"op": "archive.query", "h": 1, "case": n, "q": "extract", "path": list(other_path.encode())}] if rng.random() < 0.5 else []
+    return Case([inst.open_line(1, n)] + first + [
                  {"op": "archive.query", "h": 1, "case": n, "q": "extract", "path": list(path.encode())},
+                 {"op": "archive.query", "h": 1, "case": n, "q": "extract", "path": list(other_path.encode())},
                  {"op": "archive.close", "h": 1, "case": n}],
                 desc={"kind": desc["kind"], "modes": desc.get("_modes"), "via": "extract", "dat": datid, "offset": off})
 
@@ -75,6 +83,9 @@ def mdl(rng, counts, lens, modes, lods):
     return {"kind": "mdl", "version": rng.choice([5, 6, 0x1000005]) % 65536 * 1 + 0, "decls": rng.randrange(1, 9), "mats": rng.randrange(0, 9),
             "lods": lods, "stream": rng.random() < 0.5, "edge": False,
             "stack": secs[0], "runtime": secs[1], "vertex": [secs[2], secs[4], secs[6]], "index": [secs[3], secs[5], secs[7]],
+            # where the sections' blocks are stored (11 sections in reading order incl. the empty edge sections): now and then
+            # not in reading order
+            "_storage_order": rng.sample(range(11), 11) if rng.random() < 0.3 else None,
             "_modes": list(modes)}
 
 
